@@ -82,7 +82,7 @@ def main(argv):
                 ref_bad += 0 if okk else 1
                 print("%-55s %s %-9s %5.1fs" % (o["patch"], p, "green" if okk else "ALARM(exit %d)" % r["exit"], r["seconds"]))
     old = []
-    rp = os.path.join(V, "mutants", "RESULTS.json")
+    rp = os.environ.get("SELFTEST_RESULTS", os.path.join(V, "mutants", "RESULTS.json"))
     if only and os.path.exists(rp):   # partial run: merge into the stored results
         old = [o for o in json.load(open(rp)) if o["patch"] not in {x["patch"] for x in res}]
     json.dump(old + res, open(rp, "w"), indent=1)
